@@ -176,6 +176,8 @@ struct Gen {
       else if (u < 0.32) { op("pcm_seek").set("a", g.chance(0.5) ? sr.total : std::max<int64_t>(0, sr.total - (int64_t)g.below(300))); if (g.chance(0.5)) read_op(0, 3); }
       else if (u < 0.42) { Rec &r = op("crosslap"); r.set("a", pick_pos()); if (g.chance(0.4)) r.set("hrb", (int64_t)g.below(2)); }
       else if (u < 0.45 && sr.nlinks > 1) { int l = (int)g.range(1, sr.nlinks - 1); op("pcm_seek").set("a", std::max<int64_t>(0, sr.start[l] - (int64_t)g.below(200))); read_op(0, 2); seek_op("_lap", g.chance(0.1)); }
+      else if (u < 0.50) {   // a seek that fails once dumps the decode state and leaves the read cursor where it was; the lapped seek that follows has to find out where that is
+        static const char *fk[] = {"SEEKFAIL", "SEEKFAIL", "EIO", "TELLFAIL"}; seek_op("", false); p.recs.back().set("fault", fmt("%s@%d", fk[g.below(4)], (int)g.below(6))); seek_op("_lap", false); }
       else seek_op("_lap", true, 0.06);
       if (g.chance(0.3)) read_op(0, 2);
     }
@@ -197,10 +199,11 @@ struct Gen {
     if (sr.has_bs64 && seekable) { gen_refusal(); return; }
     if (!seekable) { if (g.chance(0.8)) op("halfrate").set("flag", 1); linear_read(true); op("read_float").set("len", 64); return; }
     int n = (int)g.range(3, thorough ? 20 : 12); bool on = false;
-    if (g.chance(0.4)) { op("halfrate").set("flag", 1); on = true; if (g.chance(0.3)) { linear_read(false); return; } }
+    auto onflag = [&]() -> int64_t { static const int64_t nz[] = {2, 3, -1, 256, 0x40000000}; return g.chance(0.8) ? 1 : nz[g.below(5)]; };   // "zero turns it off; nonzero turns it on"
+    if (g.chance(0.4)) { op("halfrate").set("flag", onflag()); on = true; if (g.chance(0.3)) { linear_read(false); return; } }
     for (int i = 0; i < n; i++) {
       double u = g.unit();
-      if (u < 0.22) { on = !on || g.chance(0.1); op("halfrate").set("flag", on ? 1 : 0); }
+      if (u < 0.22) { on = !on || g.chance(0.1); op("halfrate").set("flag", on ? onflag() : 0); }
       else if (u < 0.30) { op("pcm_seek").set("a", sr.total - std::min<int64_t>(sr.total, (int64_t)g.below(3))); }
       else if (u < 0.36) { op("tells"); }
       else seek_op("", true, 0.05);
